@@ -91,6 +91,12 @@ type Tree struct {
 	calls     int
 	// Record can be switched off for concurrent use (C06).
 	NoRecord bool
+	// SharedPaths: GetSdcpbPath hands out one stored path object per node instead of a fresh one for every call (an
+	// entry is free to do so); what an evaluation does with such a path must not show in the next one.  Not for
+	// concurrent use.
+	SharedPaths bool
+	stored      map[string]*sdcpb.Path
+	storedIDs   map[string]ID
 }
 
 // FaultError is the sentinel returned by an injected fault.
@@ -298,6 +304,41 @@ func DefaultLeafRef(id ID) ID {
 }
 
 func (e *Entry) GetSdcpbPath() *sdcpb.Path {
+	if e.T.SharedPaths {
+		if p, ok := e.T.stored[e.Id.String()]; ok {
+			return p
+		}
+	}
+	p := e.freshPath()
+	if e.T.SharedPaths {
+		if e.T.stored == nil {
+			e.T.stored = map[string]*sdcpb.Path{}
+		}
+		e.T.stored[e.Id.String()] = p
+		if e.T.storedIDs == nil {
+			e.T.storedIDs = map[string]ID{}
+		}
+		e.T.storedIDs[e.Id.String()] = e.Id.clone()
+	}
+	return p
+}
+
+// StoredPathsIntact tells whether every path handed out under SharedPaths still is the path of its node.
+func (t *Tree) StoredPathsIntact() (string, bool) {
+	for id, p := range t.stored {
+		want := t.storedIDs[id]
+		ok := len(p.GetElem()) == len(want)
+		for i := 0; ok && i < len(want); i++ {
+			ok = p.GetElem()[i].GetName() == want[i].Name && len(p.GetElem()[i].GetKey()) == len(want[i].Keys)
+		}
+		if !ok {
+			return fmt.Sprintf("the path object the data tree keeps for node %s now reads %s", id, PathString(p)), false
+		}
+	}
+	return "", true
+}
+
+func (e *Entry) freshPath() *sdcpb.Path {
 	p := &sdcpb.Path{IsRootBased: true}
 	for _, el := range e.Id {
 		var keys map[string]string
